@@ -54,6 +54,7 @@ type CallAssert struct {
 	Ordinal int    // nth call of that callee in source order, -1 = all
 	Clause  Clause
 	After   bool
+	Direct  bool // CALLEE! : only calls written in the function under contract itself, not in inlined callees
 }
 
 type Contract struct {
@@ -106,6 +107,7 @@ type GhostUpdate struct {
 	Lhs     ast.Expr
 	Expr    ast.Expr
 	Before  bool
+	Direct  bool
 }
 
 type SpecFunc struct {
@@ -600,6 +602,8 @@ func (p *contractParser) line(t string, no int) error {
 			return fmt.Errorf("assert needs 'before|after CALLEE[#n]: expr'")
 		}
 		callee, ord := hd[1], -1
+		direct := strings.HasSuffix(callee, "!")
+		callee = strings.TrimSuffix(callee, "!")
 		if j := strings.Index(callee, "#"); j >= 0 {
 			n, err := strconv.Atoi(callee[j+1:])
 			if err != nil {
@@ -615,7 +619,7 @@ func (p *contractParser) line(t string, no int) error {
 		if tag != "" {
 			cl.Prop = tag
 		}
-		c.Asserts = append(c.Asserts, CallAssert{Callee: callee, Ordinal: ord, Clause: cl, After: hd[0] == "after"})
+		c.Asserts = append(c.Asserts, CallAssert{Callee: callee, Ordinal: ord, Clause: cl, After: hd[0] == "after", Direct: direct})
 	case "ghostset-at-entry":
 		as := strings.SplitN(rest, "=", 2)
 		if len(as) != 2 {
@@ -641,6 +645,8 @@ func (p *contractParser) line(t string, no int) error {
 			return fmt.Errorf("ghostset needs 'before|after CALLEE[#n]: lhs = expr'")
 		}
 		callee, ord := hd[1], -1
+		direct := strings.HasSuffix(callee, "!")
+		callee = strings.TrimSuffix(callee, "!")
 		if j := strings.Index(callee, "#"); j >= 0 {
 			n, err := strconv.Atoi(callee[j+1:])
 			if err != nil {
@@ -660,7 +666,7 @@ func (p *contractParser) line(t string, no int) error {
 		if err != nil {
 			return err
 		}
-		c.Ghosts = append(c.Ghosts, GhostUpdate{Callee: callee, Ordinal: ord, Name: strings.TrimSpace(as[0]), Lhs: lhs, Expr: e, Before: hd[0] == "before"})
+		c.Ghosts = append(c.Ghosts, GhostUpdate{Callee: callee, Ordinal: ord, Name: strings.TrimSpace(as[0]), Lhs: lhs, Expr: e, Before: hd[0] == "before", Direct: direct})
 	default:
 		return fmt.Errorf("unknown clause %q", kw)
 	}
